@@ -3,12 +3,12 @@ CONSTANTS
   GMinT = 4
   J = 1
   Bug = "none"
-  Emit = TRUE
+  Emit = FALSE
   Scenarios <- MCScenarios
   Ds = {12, 20, 32, 48, 80, 120, 200, 320}
   XStep = 4
   Near = 4
-  Fgs = {TRUE}
+  Fgs = {FALSE}
 CONSTRAINT TimeBound
 INVARIANTS TypeOK NoStuck IntIffCtxBeforeWait KillOnlyAfterGrace NoEscalationInBg Attribution BoundedReturn EarlyOwnStatus NoChildLeft SatisfiesL1 NotHung
 CHECK_DEADLOCK TRUE
